@@ -231,6 +231,7 @@ class Interp:
         self._switch_cache = {}
         self.atom_range = {}
         self.unroll = 1
+        self.pin_names = False
 
     # ------------------------------------------------------------------ types
     def itype(self, node_or_type):
@@ -248,6 +249,18 @@ class Interp:
         if signed:
             return (-(1 << (bits - 1)), (1 << (bits - 1)) - 1)
         return (0, (1 << bits) - 1)
+
+    def _pin(self, l, s):
+        """with pin_names (small-scope runs over pinned descriptors): an index whose atoms all have a
+        single possible value is named by that value"""
+        if not self.pin_names or not is_lin(l) or l.is_const():
+            return l
+        sub = {}
+        for a, c in l.terms:
+            iv = s.facts.iv.get(a)
+            if iv is not None and iv[0] == iv[1]:
+                sub[a] = Lin.c(iv[0])
+        return l.subst(sub) if sub else l
 
     def fresh(self, st, name, t=None, rng=None):
         """atom with a type-derived interval (intersected with an existing one)"""
@@ -535,7 +548,17 @@ class Interp:
         return out
 
     def s_DoStmt(self, n, st):
-        raise Unsupported('do-while')
+        # do B while (C)  ==  B; while (C) B   (continue inside B goes to the test in both)
+        body, cond = n['inner'][0], n['inner'][1]
+        out = []
+        for s, sig in self.exec_stmt(body, st):
+            if sig is None or sig[0] == 'continue':
+                out.extend(self._loop(n, s, None, cond, None, body))
+            elif sig[0] == 'break':
+                out.append((s, None))
+            else:
+                out.append((s, sig))
+        return out
 
     def s_GotoStmt(self, n, st):
         raise Unsupported('goto')
@@ -1752,7 +1775,7 @@ class Interp:
         if t == 'oarr':
             return [(s, ('obj', '%s[0]' % pv[1]))]
         if t == 'oelem':
-            return [(s, ('obj', '%s[%s]' % (pv[1], lin_repr(pv[2]))))]
+            return [(s, ('obj', '%s[%s]' % (pv[1], lin_repr(self._pin(pv[2], s)))))]
         if t == 'parr':
             return [(s, ('pelem', pv[1], Lin.c(0)))]
         if t == 'pelemp':
@@ -1851,7 +1874,7 @@ class Interp:
         if t == 'imm':
             return [(s, self.model.load_imm(lv[1], lv[2], lv[3], s, self, n))]
         if t == 'pelem':
-            self_name = '%s[%s]' % (lv[1], lin_repr(lv[2]))
+            self_name = '%s[%s]' % (lv[1], lin_repr(self._pin(lv[2], s)))
             s.pnull.setdefault(self_name, False) if self.model.assume_nonnull(self_name) else None
             return [(s, ('obj', self_name))]
         if t == 'elem':
